@@ -354,7 +354,7 @@ def _viol_dict(v: Violation, source: Optional[str] = None):
 
 
 def write_replay(prop_id: str, viol: dict) -> Path:
-    d = VERIF / "out" / "replays" / prop_id
+    d = VERIF / "out" / ("replays" if "VERIF_REPO" not in os.environ else "replays-scratch") / prop_id
     d.mkdir(parents=True, exist_ok=True)
     name = hashlib.sha1(viol["sig"].encode()).hexdigest()[:10]
     path = d / f"{name}.json"
@@ -506,8 +506,10 @@ def finish(module, tier, seed, results, errors, wall) -> int:
         "wall_s": round(wall, 2),
         "violations": len(violations),
     }
-    (VERIF / "evidence").mkdir(exist_ok=True)
-    (VERIF / "evidence" / f"{module.ID}.json").write_text(json.dumps(evidence, indent=1, default=repr))
+    # runs against a scratch copy (mutation self-tests) must not overwrite real evidence
+    evdir = VERIF / "evidence" if "VERIF_REPO" not in os.environ else VERIF / "out" / "evidence-scratch"
+    evdir.mkdir(parents=True, exist_ok=True)
+    (evdir / f"{module.ID}.json").write_text(json.dumps(evidence, indent=1, default=repr))
 
     for f in known:
         if excluded.get(f["signature"], 0) > 0:
